@@ -5,6 +5,7 @@ import (
 	"runtime"
 	"sort"
 	"sync"
+	"sync/atomic"
 	"time"
 
 	"github.com/junegunn/fzf/src/util"
@@ -17,6 +18,7 @@ type MatchRequest struct {
 	final    bool
 	sort     bool
 	revision revision
+	seq      int64
 }
 
 // Matcher is responsible for performing search
@@ -31,6 +33,7 @@ type Matcher struct {
 	slab           []*util.Slab
 	mergerCache    map[string]*Merger
 	revision       revision
+	reqSeq         int64
 }
 
 const (
@@ -71,7 +74,11 @@ func (m *Matcher) Loop() {
 				}
 				switch val := val.(type) {
 				case MatchRequest:
-					request = val
+					// Both reqRetry and reqReset can be pending at the same time.
+					// Always serve the most recent one.
+					if val.seq > request.seq {
+						request = val
+					}
 				default:
 					panic(fmt.Sprintf("Unexpected type: %T", val))
 				}
@@ -251,7 +258,7 @@ func (m *Matcher) Reset(chunks []*Chunk, patternRunes []rune, cancel bool, final
 	} else {
 		event = reqRetry
 	}
-	m.reqBox.Set(event, MatchRequest{chunks, pattern, final, sort, revision})
+	m.reqBox.Set(event, MatchRequest{chunks, pattern, final, sort, revision, atomic.AddInt64(&m.reqSeq, 1)})
 }
 
 func (m *Matcher) Stop() {
